@@ -3,7 +3,8 @@
     followed by Print Assumptions.  Model: Val/Model.v (tied to val/types.go, val/util.go,
     nodeutil/reflect.go, nodeutil/node_slice.go by the C17 correspondence check). *)
 From Coq Require Import ZArith List Lia.
-From YV Require Import Base.Wrap Val.Model Val.Proofs.
+From YV Require Import Base.Wrap Val.Model Val.Proofs Val.Lookup.
+From Coq Require Import Sorting.Permutation Sorting.Sorted Strings.Byte.
 Import ListNotations.
 Open Scope Z_scope.
 
@@ -77,3 +78,64 @@ Theorem C17_pinned_commit_refuted :
   Z.sgn (cmp_old_int FInt8 100 (-100)) <> Z.sgn (100 - -100) /\
   Z.sgn (cmp_old_int FInt64 9223372036854775807 (-1)) <> Z.sgn (9223372036854775807 - -1).
 Proof. exact (conj cmp_old_uint8_refuted (conj cmp_old_int8_refuted cmp_old_int64_refuted)). Qed.
+
+(** * Lookups built on the order (Val/Lookup.v) *)
+
+(** sort.Search(n, f) on a predicate that is false...false true...true on [0,n) returns the least
+    index where it holds, or n *)
+Theorem C17_search_spec : forall n f, monotone_on n f ->
+  (go_search n f <= n /\
+   (forall k, k < go_search n f -> f k = false) /\
+   (go_search n f < n -> f (go_search n f) = true) /\
+   (forall k, k < n -> f k = true -> go_search n f <= k))%nat.
+Proof. exact go_search_spec. Qed.
+Print Assumptions C17_search_spec.
+
+(** sliceSorter.Less is a strict total order on the well-formed keys of one list (shape [sh]),
+    and EqualVals / CompareVals = 0 are its equivalence "denote the same key" *)
+Theorem C17_key_order : forall sh a b c, kdom sh a -> kdom sh b -> kdom sh c ->
+  ~ klt a a /\ (klt a b -> klt b c -> klt a c) /\ (klt a b \/ key_same a b \/ klt b a) /\
+  (klt a b -> ~ key_same a b) /\ (klt a b -> ~ klt b a) /\
+  (key_eq a b = true <-> key_cmp a b = 0) /\ (key_eq a b = true <-> key_same a b).
+Proof.
+  exact (fun sh a b c Ha Hb Hc =>
+    conj (klt_irrefl sh a Ha) (conj (klt_trans sh a b c Ha Hb Hc) (conj (klt_total sh a b Ha Hb)
+    (conj (klt_not_same sh a b Ha Hb) (conj (klt_asym sh a b Ha Hb)
+    (conj (key_eq_cmp sh a b Ha Hb) (key_eq_iff a b (proj1 Ha) (proj1 Hb)))))))).
+Qed.
+Print Assumptions C17_key_order.
+
+(** sorting pairwise-distinct keys yields the strictly sorted permutation *)
+Theorem C17_sort_keys : forall sh l, Forall (kdom sh) l -> distinct_keys l ->
+  Permutation l (sort_keys l) /\ StronglySorted klt (sort_keys l).
+Proof. exact (fun sh l Hd Hn => conj (sort_keys_perm l) (sort_keys_sorted sh l Hd Hn)). Qed.
+Print Assumptions C17_sort_keys.
+
+(** Reflect slice list (sorted key index + sort.Search): the lookup returns exactly the row whose
+    key denotes the requested key, and nothing exactly when no row does *)
+Theorem C17_reflect_find_correct : forall sh rows k,
+  Forall (kdom sh) rows -> kdom sh k -> distinct_keys rows ->
+  (forall r, reflect_find rows k = Some r <-> In r rows /\ key_same r k) /\
+  (reflect_find rows k = None <-> forall r, In r rows -> ~ key_same r k).
+Proof. exact reflect_find_correct. Qed.
+Print Assumptions C17_reflect_find_correct.
+
+(** nodeutil.Node slice list (linear scan, Go interface equality): same, for keys that are
+    identical as Go values whenever they denote the same ([go_identical]: no []byte leaves, enum
+    labels agree) *)
+Theorem C17_linear_find_correct : forall rows k, distinct_keys rows ->
+  (forall r, linear_lookup rows k = Some r <-> In r rows /\ key_same r k /\ go_identical r k) /\
+  (linear_lookup rows k = None <-> forall r, In r rows -> ~ (key_same r k /\ go_identical r k)).
+Proof. exact linear_find_correct. Qed.
+Print Assumptions C17_linear_find_correct.
+
+(** non-vacuity: a two-key list over (uint64, string) meets the hypotheses and the lookups find
+    the row *)
+Example C17_lookup_hyps_met :
+  let sh := [FUInt64; FString] in
+  let rows := [[VInt FUInt64 18446744073709551615; VStr [x61]]; [VInt FUInt64 0; VStr []]] in
+  let k := [VInt FUInt64 0; VStr []] in
+  Forall (kdom sh) rows /\ kdom sh k /\ distinct_keys rows /\
+  reflect_find rows k = Some k /\ linear_lookup rows k = Some k /\
+  reflect_find rows [VInt FUInt64 7; VStr []] = None.
+Proof. exact lookup_hyps_met. Qed.
